@@ -11,25 +11,25 @@ for line in out.splitlines():
     rules.setdefault(rid.split(".")[0], []).append(rid)
 
 TECH = {
- "C01": "dataflow provenance + dominator guards over SSA of the verification walk; type-switch exhaustiveness",
- "C02": "typestate (Loaded→Chained→Effective) over SSA values + must-pass-through on CFG",
+ "C01": "dataflow provenance + dominator guards + must-pass-through over SSA of the verification walk; type-switch exhaustiveness; error-discipline lint over the call graph; decision tables of the readers it relies on",
+ "C02": "typestate (Loaded→Chained→Effective) over SSA values + must-pass-through on CFG (chain coverage, pinned root, documented unverified exits); error-discipline lint over the call graph",
  "C03": "who-may-write over call graph with constant ref evaluation; must-pass-through; sibling agreement",
- "C04": "must-pass-through on CFG of the single stepper; who-may-call; error-discipline lint; field-read sets",
- "C05": "dominator/must-pass-through rules on SignatureVerifier.Verify; who-may-write field",
- "C06": "dominator guards + provenance on the delegation walk; sibling agreement with ListRules",
- "C07": "dominator guards + option-set constant evaluation on the recovery loop",
+ "C04": "decision tables (predicate abstraction over the CFG, exhaustive over truth assignments) for the reader's match/bound logic and the stepper; exact-scan rules for the annotation predicates; must-pass-through; who-may-call; error-discipline lint",
+ "C05": "dominator/must-pass-through rules on SignatureVerifier.Verify (credit only behind a verified signature); who-may-write field; error-discipline lint",
+ "C06": "dominator guards + provenance on the delegation walk; exact-scan rule over the four Matches siblings; sibling agreement with ListRules",
+ "C07": "must-pass-through with emptiness/nil-ness path facts + dominator guards + option-set constant evaluation on the recovery loop; exact-scan rules for SkippedBy/RefersTo",
  "C08": "effect analysis over the call graph (who-may-write refs) + must-read-tip reachability",
- "C09": "validate-on-read must-pass-through + argument provenance; sibling agreement of attestation getters",
- "C10": "constant evaluation of git argument vectors (NUL protocol) + loop-shape dataflow",
+ "C09": "validate-on-read must-pass-through + argument provenance; sibling agreement of attestation getters; dismissal writer rule; error-discipline lint",
+ "C10": "constant evaluation of git argument vectors and taint of their output (NUL protocol, one obligation per defect kind) + loop-shape dataflow (every path, per-commit trusted verifier)",
  "C11": "allocation-site provenance of always-succeeding verifiers + must-pass-through of the global-rule loop",
- "C12": "ordered must-pass-through gates in Apply; who-may-write policy refs; argument provenance at 27 call sites",
+ "C12": "ordered must-pass-through gates in Apply + decision table of its consistency switch; who-may-write policy refs; argument provenance at 27 call sites; error-discipline lint",
  "C13": "per-store proof patterns on Delegations.Roles; refuse-before-mutate CFG rule; struct field bijections",
  "C14": "writer/parser table extraction from AST and agreement check; guard rules on parser state machines",
  "C15": "type-switch exhaustiveness over rsl.Entry implementers; provenance; refspec constant evaluation",
  "C16": "compensation pairing on CFG (effect → compensator on every error path)",
  "C17": "argument identity (CAS old == parent) over SSA; interprocedural single-read rule; lock dominance",
  "C18": "dependency-set inclusion between compared and copied values; provenance of recorded fields",
- "C19": "sibling cross-check of verifyMergeable vs verifyEntry; guard rules on the relaxation flag",
+ "C19": "sibling cross-check of verifyMergeable vs verifyEntry; guard and assignment rules on the relaxation flag; error-discipline lint",
  "C20": "name-table extraction from gopher-lua source + constant evaluation of the sandbox setup; CFG rules",
 }
 meta = {}
